@@ -41,6 +41,8 @@
 
 mod serial_port;
 mod serial_sign_bus;
+#[cfg(flipdot_verif)]
+pub mod verif_hooks;
 
 pub use self::serial_port::configure_port;
 pub use self::serial_sign_bus::SerialSignBus;
